@@ -17,7 +17,7 @@ func univFor(kind string) univ {
 	if isSingle(kind) {
 		u.buckets = []string{singleBucketName}
 	} else {
-		u.buckets = []string{singleBucketName, "bkb"}
+		u.buckets = []string{singleBucketName, singleBucketName + "2"} // one name begins with the other: still two buckets
 	}
 	if kind == "mem" || kind == "bolt" || kind == "boltbin" {
 		u.keys = []string{"a", "a/b", "a/c", "d", "a_b"}
@@ -97,7 +97,7 @@ func c02Probe(s *Sess, u univ) {
 func runC02(tier string, seed uint64) {
 	rng := NewRng(seed)
 	// (1) exhaustive short sequences on the memory backend
-	b1, b2 := singleBucketName, "bkb"
+	b1, b2 := singleBucketName, singleBucketName+"2"
 	X, Y := []byte("X"), []byte("YY")
 	type sym func(s *Sess)
 	alphabet := []sym{
@@ -160,7 +160,9 @@ func runC02(tier string, seed uint64) {
 				continue
 			}
 			for i := 0; i < nseq; i++ {
-				s := newSess("c02", kind, SessOpts{Auto: auto})
+				// every fourth history on the memory backend runs it with versioning support switched off
+				// (the plain Backend interface: DeleteMulti instead of DeleteMultiVersions, ...)
+				s := newSess("c02", kind, SessOpts{Auto: auto, NoVer: kind == "mem" && i%4 == 3})
 				u := univFor(kind)
 				if !auto && !isSingle(kind) && rng.Intn(4) > 0 {
 					s.MkBucket(u.buckets[0])
